@@ -132,12 +132,14 @@ def main():
            "(a OR b) AND (c OR d)", "foo AND (bar~2 OR baz)", " a  AND ( b OR ( c AND ( d OR ( e AND f ) ) ) ) ",
            "x:(y:(z:(w))) OR NOT -q", "a b c d e f", "f:[a TO b]^2 \"p q\"~3 /re/",
            # blanks carried by the root element itself
-           "  foo ", " (foo OR bar)  ", " f:x ", "\tNOT a ", " [1 TO 2] ", " a^2 ", "  \"p q\"~2\n", " +a ", "  a:foo  AND b:bar ", "(a)AND(b)", "NOT(a)", "\"a\"\"b\" c"]
+           "  foo ", " (foo OR bar)  ", " f:x ", "\tNOT a ", " [1 TO 2] ", " a^2 ", "  \"p q\"~2\n", " +a ", "  a:foo  AND b:bar ", "(a)AND(b)", "NOT(a)", "\"a\"\"b\" c",
+           # layout the tree may or may not keep (compared with the tree's own text), chains of suffixes
+           "title :foo", "a :b AND c", " f  :(x y)^2 ", "a^2^3", "a^2 ^3 b", "(a b)^1^2^3 OR c~1^2", "f:(a)^2^3"]
     res = pmap(work, list(enumerate(qs)))
     failures = [f for r in res for f in r[1]]
     rest, hit = classify(failures, p.get("known", []))
     emit({"ok": not rest, "evaluations": sum(r[0] for r in res), "distinct_nontrivial": len(qs),
-          "rule": "queries = every accepted token sequence of <= %d tokens (single blanks) + 22 hand-picked queries (nesting, blanks on the root element, operators glued to parentheses / quotes); "
+          "rule": "queries = every accepted token sequence of <= %d tokens (single blanks) + 29 hand-picked queries (nesting, blanks on the root element, operators glued to parentheses / quotes); "
                   "markings: all 3^n assignments for trees of <= 5 nodes, 15 seeded/structured assignments otherwise; both modes; "
                   "distinct = queries" % p["max_tokens"],
           "bound": "token sequences <= %d; sampled markings for larger trees" % p["max_tokens"],
